@@ -55,6 +55,18 @@ claimed = {
    'Seeded deterministic simulation of two consecutive real transfers through one or two real relays (inside/outside tmux, normal/control mode), generated client capability sets (protocol 1-9, binary, directory support) and server options, with and without a tunnel (per-host port namespaces, relay tunnel hop), first transfer ended by exit, user stop through the prompt, server-side disk error or SIGINT at the server. Oracles: decoded ACT after the last relay (binary off without a tunnel, protocol <= 4 and <= offered, other fields preserved), decoded CFG at the client (server settings preserved, tmux junk flag and pane width added), files as in a direct transfer, every relay back in standby, no relay goroutine spinning, transparency probe through the relays in both directions, second transfer succeeds with identical files. Batch overtake: the end-of-transfer marker is sent as soon as the handshake lines have been seen, so it can reach the relay while it is still handshaking; the relay must still return to standby.',
    'Same-tree peers; refusal by the client (cancelled file dialog) is exercised at relay level by C13 only; end-of-transfer markers are delivered within one read.',
    'deterministic simulation of multi-party transfers (client, 1-2 relays, server) with wire monitors on every hop and relay-state / busy-loop monitors', '§4 C14'),
+ 'C05': ('exploration',
+   'Seeded deterministic simulation of one real filter (option sets drag x tracelog x zmodem x OSC52) after a history of 0-3 real transfers (success, user stop through the prompt, SIGINT at the server), then 3-14 probe chunks in both directions with arbitrary segmentation/coalescing: random binary, VT100 sequences, truncated/corrupted trigger look-alikes, zmodem-like and OSC52-like fragments (vetoed zmodem headers, genuine OSC52 with a stubbed clipboard), scroll-back of finished transfers, control keys, path-like input naming files that do not exist, existing paths not in the dragged-path shape, bracketed paste. Oracle: bytes at the terminal == bytes written by the shell and bytes at the server side == bytes typed - same sequence, exactly once - and no transfer starts.',
+   'The clause "the wrapped command exit status is passed on" is pty code outside the simulation and is not claimed. Zmodem headers, like triggers, are delivered within one read. Only the Linux drag-path detector runs on this host.',
+   'deterministic simulation of the filter between a scripted shell and a scripted user after real transfer histories; exact stream equality oracle', '§4 C05'),
+ 'C06': ('exploration',
+   'Seeded deterministic simulation feeding one real filter (with/without a tunnel connector) sequences of 3-12 chunks: genuine triggers from a grammar written from the servers print statements (modes S/R/D, versions 0.0.0-10.200.3000, ids absent/short/13 digits with role suffixes 00/10/20/22/15 digits, port absent/present, arbitrary prefix bytes in the same read, tmux control-mode framing), truncated and one-byte-corrupted triggers, redraws repeating a deduplicated id among the last 40, scroll-back transcripts; a scripted server refuses every ACT. Oracles: exactly one ACT (or, for an upload trigger with nothing to upload, exactly one fail line) per fresh genuine trigger and none otherwise; protocol 2 offered to 1.1.0-1.1.3 servers; Windows framing iff the id says so; connector called with the advertised port; tmux control-mode triggers only through a tunnel; negatives reach the terminal unmodified; what the filter shows locally starts nothing in a second real filter. Relay-forwarded triggers (#R, id re-tag) are checked against a real client in C13/C14.',
+   'Repeated plain ...00 ids are not deduplicated by design and are not asserted either way.',
+   'deterministic simulation of the filter against a scripted refusing server; per-chunk ACT/fail counting', '§4 C06'),
+ 'C17': ('exploration',
+   'Seeded deterministic simulation of transfers with the tunnel offered (real listener/accept/authenticate code over an in-memory network with per-host ports, real client connector path, optional relay hop) while 0-3 attacker tasks connect at tape-chosen times with unrelated text, a greeting for another id, a truncated greeting, the greeting plus one byte, the greeting split across two writes, nothing, a flood of protocol-looking lines, or the right greeting after the genuine connection is in place; the genuine connector succeeds, refuses, returns late (1.1-3.1 s), returns a dead connection, or the server cannot listen; fail lines are injected in-band in both directions once the tunnel carries traffic. Oracles: the transfer succeeds with identical files in every case (so nothing from non-adopted connections or in-band reached it), a connection without the exact greeting receives nothing and is closed, a second correct greeting gets no transfer traffic, no more connections carry protocol traffic than there are tunnel hops. Sensitivity: HasPrefix instead of equality is caught.',
+   'Whoever presents the exact greeting first is by definition the genuine party (the greeting is the secret); same-tree peers.',
+   'deterministic simulation with attacker tasks on a simulated network, seeded arrival orders and schedules', '§4 C17'),
 }
 pending_reason = 'check not built yet in this session (deterministic simulation planned, see DESIGN.md §4); not claimed'
 checks = []
